@@ -41,6 +41,8 @@ type ChaosCfg struct {
 }
 
 type Chaos struct {
+	// lastStake: amount of the most recent edit-stake request generated per node key
+	lastStake map[int]int64
 	B      *Builder
 	R      *rand.Rand
 	Cfg    ChaosCfg
@@ -231,9 +233,20 @@ func (c *Chaos) genTx() {
 			}
 		}
 		stake := int64(15_000_000_000 + r.Int63n(30_000_000_000))
-		if r.Intn(4) == 0 {
+		switch r.Intn(5) {
+		case 0:
 			stake = 15_000_000_000 + 1_000_000_000*int64(r.Intn(8)) // maybe lower than current
+		case 1:
+			// a bump of less than one POKT on top of the amount last requested for this node (usually its current stake):
+			// small as it is, it crosses a whole-POKT boundary about every other time
+			if last, ok := c.lastStake[k]; ok {
+				stake = last + 1 + r.Int63n(999_999)
+			}
 		}
+		if c.lastStake == nil {
+			c.lastStake = map[int]int64{}
+		}
+		c.lastStake[k] = stake
 		var dg map[string]uint32
 		if r.Intn(4) == 0 {
 			dg = map[string]uint32{AddrHex(KeyDeleg0 + 900 + r.Intn(5)): uint32(1 + r.Intn(30)), AddrHex(KeyDeleg0 + 910 + r.Intn(5)): uint32(1 + r.Intn(30))}
